@@ -152,8 +152,9 @@ func (o *Out) Finish() error {
 			fmt.Fprintf(&sb, " (%d, %s)", c.Idx, c.Coq)
 		}
 		sb.WriteString("\n].\n")
-		sb.WriteString("Definition R_mism := Eval vm_compute in mismatches cases.\n")
-		sb.WriteString("Definition R_bad := Eval vm_compute in spec_violations cases.\n")
+		sb.WriteString("Definition R_all := Eval vm_compute in evaluate cases.\n")
+		sb.WriteString("Definition R_mism := Eval vm_compute in fst R_all.\n")
+		sb.WriteString("Definition R_bad := Eval vm_compute in snd R_all.\n")
 		sb.WriteString("Print R_mism.\nPrint R_bad.\n")
 		if err := os.WriteFile(filepath.Join(o.Dir, fmt.Sprintf("cases_%03d.v", nsh)), []byte(sb.String()), 0o644); err != nil {
 			return err
